@@ -148,6 +148,7 @@ func (c *Check) compareCodecPair(rule string, rel string, pr codecPair) {
 		}
 	}
 	walk(pr.Writer.Ops)
+	bad = append(bad, presenceFlagAgrees(pr.Writer.Ops)...)
 	if len(bad) == 0 {
 		c.Ok(rule, key, pos, "codec grammar", "grammar %q fields [%s]", ws, wf)
 	} else {
@@ -490,4 +491,60 @@ func returnsErrValue(b *ssa.BasicBlock, call *ssa.Call) bool {
 		}
 	}
 	return false
+}
+
+// presenceFlagAgrees (C15.R2, presence clause): a bool written directly in front of an optional part
+// is that part's presence flag (the reader decides by it): its value must be the very condition
+// under which the part is written - the literal true in the branch that writes the part, or an
+// expression that canonicalises to the branch condition. A flag computed from a narrower
+// condition (`hash != nil && !hash.IsZero()`) announces "absent" for a part that is then written.
+func presenceFlagAgrees(ops []cop) []string {
+	var bad []string
+	negate := func(s string) string {
+		if strings.HasPrefix(s, "!") {
+			return s[1:]
+		}
+		if strings.HasSuffix(s, "==var:nil") {
+			return strings.TrimSuffix(s, "==var:nil") + "!=var:nil"
+		}
+		if strings.HasSuffix(s, "!=var:nil") {
+			return strings.TrimSuffix(s, "!=var:nil") + "==var:nil"
+		}
+		return "!" + s
+	}
+	for i, o := range ops {
+		switch o.Kind {
+		case "Loop":
+			bad = append(bad, presenceFlagAgrees(o.Body)...)
+		case "Alt":
+			bad = append(bad, presenceFlagAgrees(o.A)...)
+			bad = append(bad, presenceFlagAgrees(o.B)...)
+			if i == 0 || len(o.B) != 0 || ops[i-1].Kind != "F" || ops[i-1].Typ != "bool" {
+				continue
+			}
+			flag := ops[i-1].Arg
+			present := o.Cond // condition under which the part is written
+			if o.Swapped {
+				present = negate(present)
+			}
+			switch {
+			case flag == "then:var:true":
+				if o.Swapped {
+					bad = append(bad, fmt.Sprintf("the presence flag is written true in the branch that does not write the optional part (condition %q)", o.Cond))
+				}
+			case flag == "then:var:false":
+				if !o.Swapped {
+					bad = append(bad, fmt.Sprintf("the presence flag is written false in the branch that writes the optional part (condition %q)", o.Cond))
+				}
+			case flag == "var:true" || flag == "var:false":
+				bad = append(bad, fmt.Sprintf("the presence flag in front of the optional part is the constant %s", strings.TrimPrefix(flag, "var:")))
+			case flag == "":
+			default:
+				if flag != present && negate(flag) != negate(present) {
+					bad = append(bad, fmt.Sprintf("the presence flag is written as %q but the optional part is written under %q: the reader is told the part is absent (or present) when it is not", flag, present))
+				}
+			}
+		}
+	}
+	return bad
 }
